@@ -314,7 +314,7 @@ Section Proto.
       if negb okc then
         ((if in_place md then op_unlink tmp else ret true) ;;; exit_ EX_IOERR)
       else
-        (* the md5 of the new content is recorded BEFORE the rename (fix 73d74d0) *)
+        (* the md5 of the new content is recorded BEFORE the rename (fix 8156994) *)
         (if in_place md && negb (no_backup md) then create_md5 tmp else ret tt) ;;;
         (if in_place md then
            same <- (if if_changed md then ret false else content_matches tmp target) ;;
